@@ -34,7 +34,29 @@ class ObjMixin:
                 return default
             raise
 
+    def ext_method(self, obj, name):
+        """Method inherited from an external base class, by its library model."""
+        cls = obj.cls if isinstance(obj, Obj) else None
+        if cls is None:
+            return None
+        for b in cls.ext_bases():
+            key = f'method:{b.name}.{name}'
+            if key in self.models:
+                fn = self.models[key]
+                return Builtin(key, lambda *a, _fn=fn, **k: _fn(self, obj, *a, **k), pure=False)
+        return None
+
+    def special(self, obj, name):
+        """Special-method lookup on an Obj: the repo class first, then external bases' models."""
+        m, _ = obj.cls.lookup(name)
+        if m is not None:
+            return BoundMethod(obj, m)
+        return self.ext_method(obj, name)
+
     def attr_error(self, obj, name):
+        if isinstance(obj, Obj) and obj.attrs.get('__partial__'):
+            raise Unsupported(f"attribute '{name}' of {obj.cls.name} is not described by the contract's representation "
+                              'invariant (the class changed shape)')
         tn = obj.cls.name if isinstance(obj, (Obj,)) else type(obj).__name__
         self.raise_('AttributeError', f"'{tn}' object has no attribute '{name}'")
 
@@ -153,6 +175,9 @@ class ObjMixin:
             return Builtin('__getattribute__', lambda n, _o=obj: self.raw_getattribute(_o, n))
         if name == '__setattr__':
             return Builtin('__setattr__', lambda n, v_, _o=obj: self.raw_setattr(_o, n, v_), pure=False)
+        em = self.ext_method(obj, name)
+        if em is not None:
+            return em
         ga, _ = obj.cls.lookup('__getattr__')
         if ga is not None and name != '__getattr__':
             return self.call(BoundMethod(obj, ga), [name], {})
@@ -304,7 +329,7 @@ class ObjMixin:
                     return self.call(BoundMethod(obj, v.fget), [], {})
                 return v
         # fall through to external bases / object
-        for c in mro[i + 1:] if i >= 0 else mro:
+        for c in mro[max(i, 0):]:
             for b in c.bases:
                 if isinstance(b, Ext):
                     key = 'super:' + b.name + '.' + name
@@ -335,12 +360,12 @@ class ObjMixin:
     def getitem(self, obj, idx, node=None):
         from .models.arrays import SArr
         if isinstance(obj, Obj):
-            m, _ = obj.cls.lookup('__getitem__')
+            m = self.special(obj, '__getitem__')
             if m is None:
                 if obj.cls.lookup('__class_getitem__')[0] is not None:
                     return obj
                 self.raise_('TypeError', f"'{obj.cls.name}' object is not subscriptable")
-            return self.call(BoundMethod(obj, m), [idx], {})
+            return self.call(m, [idx], {})
         if isinstance(obj, Model):
             return obj.py_getitem(self, idx)
         if isinstance(obj, ClassInfo):
@@ -413,10 +438,10 @@ class ObjMixin:
     def setitem(self, obj, idx, val):
         self.effect()
         if isinstance(obj, Obj):
-            m, _ = obj.cls.lookup('__setitem__')
+            m = self.special(obj, '__setitem__')
             if m is None:
                 self.raise_('TypeError', f"'{obj.cls.name}' object does not support item assignment")
-            return self.call(BoundMethod(obj, m), [idx, val], {})
+            return self.call(m, [idx, val], {})
         if isinstance(obj, Model):
             return obj.py_setitem(self, idx, val)
         if isinstance(obj, list):
@@ -493,9 +518,9 @@ class ObjMixin:
                 return list(v.py_iter(self))
             raise Unsupported(f'iteration over {type(v).__name__}')
         if isinstance(v, Obj):
-            m, _ = v.cls.lookup('__iter__')
+            m = self.special(v, '__iter__')
             if m is not None:
-                it = self.call(BoundMethod(v, m), [], {})
+                it = self.call(m, [], {})
                 if isinstance(it, Obj):
                     nxt, _ = it.cls.lookup('__next__')
                     out = []
@@ -546,9 +571,9 @@ class ObjMixin:
                 return v.py_len(self)
             raise Unsupported(f'len of {type(v).__name__}')
         if isinstance(v, Obj):
-            m, _ = v.cls.lookup('__len__')
+            m = self.special(v, '__len__')
             if m is not None:
-                return self.call(BoundMethod(v, m), [], {})
+                return self.call(m, [], {})
             self.raise_('TypeError', f"object of type '{v.cls.name}' has no len()")
         if isinstance(v, ClassInfo) and v.enum_kind:
             return len(v.members)
